@@ -194,6 +194,7 @@ type world struct {
 	hook   func(p int)                     // at the verif yield point (after the running check)
 	cas    func(p int, o *obj, fresh bool) // inside BatchWriteScheduled, after the flag operation
 	erets  atomic.Int64                    // Enqueue calls returned so far
+	slow   atomic.Bool                     // flush-span: the hold took longer than a third of the batch time-out
 	panics atomic.Int64
 }
 
@@ -549,6 +550,9 @@ func (w *world) settle() {
 	if w.c.kind == "first-race" {
 		quiet = 300 * time.Microsecond
 	}
+	if w.c.kind == "flush-span" || w.c.kind == "flush-stop" {
+		quiet = 30 * time.Millisecond // long batch time-out; after Stop returned the writer is gone
+	}
 	deadline := time.Now().Add(3 * time.Second)
 	last, since := w.traceLen(), time.Now()
 	for time.Now().Before(deadline) {
@@ -629,8 +633,16 @@ func run2(c cfg) ([]string, map[int][]string) {
 	}
 	w := newWorld(c)
 	ev := runIn(w)
+	for try := 0; c.kind == "flush-span" && w.slow.Load() && try < 4; try++ {
+		// the machine stalled while the writer was held: the batch timer may have fired; once more
+		w = newWorld(c)
+		ev = runIn(w)
+	}
 	w.mu.Lock()
 	defer w.mu.Unlock()
+	if c.kind == "flush-span" && w.slow.Load() {
+		ev = append(ev, "slow")
+	}
 	plog := make(map[int][]string, len(w.plog))
 	for p, l := range w.plog {
 		plog[p] = append([]string(nil), l...)
@@ -784,6 +796,53 @@ func runIn(w *world) []string {
 		})
 		waitFor(p0, 2*stressBound)
 		s0 := w.spawn(100, func() { w.stop(0) })
+
+		return w.finish([]chan struct{}{p0}, []chan struct{}{s0}, stressBound)
+
+	case "flush-span":
+		// a Flush that spans several batches: object 0's BatchWrite is held on a channel while the producer
+		// enqueues objects 1..n-1 (queue size n) and calls Flush; released, the writer drains the queue — in the
+		// flush loop as soon as it takes the flush request — committing every full batch on the way (collector
+		// replaced inside one flush) and the partial rest at the end; only then Stop is invoked.  The batch
+		// time-out is long, so that no partial batch is committed by the timer (w.slow: the hold took so long that
+		// the timer may have interfered; the caller runs the scenario again)
+		gate := make(chan struct{})
+		w.objs[0].gate = gate
+		t0 := time.Now()
+		p0 := w.spawn(0, func() {
+			w.enqueue(0, w.objs[0])
+			w.waitCount("w ", 1, stressBound)
+			for i := 1; i < c.n; i++ {
+				w.enqueue(0, w.objs[i])
+			}
+			w.rec("fl")
+			w.bw.Flush()
+			w.slow.Store(time.Since(t0) > c.timeout()/3)
+			close(gate)
+			w.waitCount("d ", c.n, stressBound)
+		})
+		waitFor(p0, 3*stressBound)
+		s0 := w.spawn(100, func() { w.stop(0) })
+
+		return w.finish([]chan struct{}{p0}, []chan struct{}{s0}, stressBound)
+
+	case "flush-stop":
+		// a flush request that is still pending when Stop clears `running`: object 0's BatchWrite is held (batch
+		// size >= 2: the batch stays open), Flush, Stop is invoked and given time to reach its Wait, release: the
+		// open batch must be committed and done before Stop returns
+		gate := make(chan struct{})
+		w.objs[0].gate = gate
+		p0 := w.spawn(0, func() {
+			w.enqueue(0, w.objs[0])
+			w.waitCount("w ", 1, stressBound)
+			w.rec("fl")
+			w.bw.Flush()
+		})
+		waitFor(p0, 2*stressBound)
+		s0 := w.spawn(100, func() { w.stop(0) })
+		w.waitEvent("tc 0", stressBound)
+		waitFor(s0, 3*time.Millisecond)
+		close(gate)
 
 		return w.finish([]chan struct{}{p0}, []chan struct{}{s0}, stressBound)
 
@@ -1179,6 +1238,10 @@ type result struct {
 
 func emit(r *hx.Run, sub uint64, res result) (failed bool) {
 	r.Case(sub)
+	slow := false
+	if n := len(res.ev); n > 0 && res.ev[n-1] == "slow" {
+		slow, res.ev = true, res.ev[:n-1]
+	}
 	per, end := oracle(res.ev)
 	r.Line(res.c.line(), "ok")
 	for i, l := range res.ev {
@@ -1201,6 +1264,16 @@ func emit(r *hx.Run, sub uint64, res result) (failed bool) {
 			mq = 0 // the Lean witness schedule for the unbuffered queue (hand-off instead of send + receive)
 		}
 		r.Line(fmt.Sprintf("model %s q=%d p=%d", res.c.kind, mq, res.c.p), projections(res.ev, res.c.p, max(1, res.c.ns)))
+	case "flush-span", "flush-stop":
+		mb := res.c.b
+		if mb == 0 {
+			mb = 10000 // option not passed: the default batch size
+		}
+		if slow {
+			r.Count("flush-span:stalled-no-model-line")
+		} else {
+			r.Line(fmt.Sprintf("model %s q=%d b=%d n=%d p=1", res.c.kind, res.c.q, mb, res.c.n), projections(res.ev, 1, 1))
+		}
 	}
 	// writer conformance: the events of the real writer goroutine, in order; the Lean driver drives the model's
 	// own writer (stepWriter) with them and answers `conforms` iff the model can emit exactly this sequence
@@ -1580,6 +1653,18 @@ func main() {
 		rng, s := r.Rng.Fork()
 		forced = append(forced, cfg{kind: "two-stops", q: 1 + i%4, b: 1 + (i/4)%4, t: timeouts[i%3], tk: pickTk(rng) % 4, p: 1, o: 1, n: 1, ns: 2,
 			uq: b2i(i%3 == 0), seed: s})
+	}
+	// flushes: spanning several batches (n objects queued behind a held BatchWrite, batch size b < n), and pending
+	// while Stop clears `running` (open batch)
+	for i := 0; i < 18*r.Scale; i++ {
+		rng, s := r.Rng.Fork()
+		b := 1 + i%3
+		n := rng.Range(b+1, 3*b+1)
+		forced = append(forced, cfg{kind: "flush-span", q: n, b: b, t: 600, p: 1, o: n, n: n, fl: 1, seed: s})
+	}
+	for i := 0; i < 12*r.Scale; i++ {
+		_, s := r.Rng.Fork()
+		forced = append(forced, cfg{kind: "flush-stop", q: 1 + i%4, b: []int{2, 3, 4, 0}[(i/4)%4], t: []int{5, 50, 300}[i%3], p: 1, o: 1, n: 1, fl: 1, seed: s})
 	}
 	for q := 1; q <= 2; q++ {
 		_, s := r.Rng.Fork()
